@@ -8,10 +8,10 @@ Inductive node := NB (n : nat) | NP (n : nat).        (* code block / proxy bloc
 Definition node_eqb (a b : node) : bool :=
   match a, b with NB x, NB y | NP x, NP y => Nat.eqb x y | _, _ => false end.
 
-(* edge label: None, or (type, conditional, direct); type 3 = Return in gtirb.Edge.Type order
-   (Branch=1 Call=2 Fallthrough=3 Return=4 Syscall=5 Sysret=6): the harness passes the enum value *)
+(* edge label: None, or (type, conditional, direct); type 3 = Return in gtirb.Edge.Type
+   (Branch=0 Call=1 Fallthrough=2 Return=3 Syscall=4 Sysret=5): the harness passes the enum value *)
 Record edge := mk_edge { src : node; tgt : node; label : option (nat * bool * bool) }.
-Definition RETURN_TYPE := 4.
+Definition RETURN_TYPE := 3.
 
 Definition label_eqb (a b : option (nat * bool * bool)) : bool :=
   match a, b with
